@@ -417,3 +417,179 @@ fn c13_op_nonconstant_argument_propagates() {
     assert!(r.is_err());
     kani::cover!(true);
 }
+
+// ================================ casts ==========================================================
+// evaluate_cast(target type, value): "HLSL conversion rules for casts between bool, integers, floats and enums".
+// The module is a small concrete registry (6 scalar types + 2 enum types with int / uint underlying types); the
+// target type id and the source value are symbolic.
+
+struct CastWorld {
+    m: &'static mut ir::Module,
+    /// type ids: [bool, int, uint, half, float, double, enum E0 (int), enum E1 (uint)]
+    ty: [ir::TypeId; 8],
+    e: [ir::EnumId; 2],
+}
+
+fn cast_world() -> CastWorld {
+    let m = leak_module();
+    let s = |m: &ir::Module, st| m.type_registry.register_type(ir::TypeLayer::Scalar(st));
+    let t_bool = s(m, ir::ScalarType::Bool);
+    let t_int = s(m, ir::ScalarType::Int32);
+    let t_uint = s(m, ir::ScalarType::UInt32);
+    let t_half = s(m, ir::ScalarType::Float16);
+    let t_float = s(m, ir::ScalarType::Float32);
+    let t_double = s(m, ir::ScalarType::Float64);
+    let mut mk_enum = |m: &mut ir::Module, under: ir::TypeId, st: ir::ScalarType| {
+        let id = m.enum_registry.register_enum(ir::EnumDefinition {
+            name: rssl_text::Located::none(String::new()),
+            namespace: None,
+        });
+        let ty = m.type_registry.register_type(ir::TypeLayer::Enum(id));
+        m.enum_registry.set_enum_type_id(id, ty);
+        m.enum_registry.set_underlying_type_id(id, under, st);
+        (id, ty)
+    };
+    let (e0, t_e0) = mk_enum(m, t_int, ir::ScalarType::Int32);
+    let (e1, t_e1) = mk_enum(m, t_uint, ir::ScalarType::UInt32);
+    CastWorld { m, ty: [t_bool, t_int, t_uint, t_half, t_float, t_double, t_e0, t_e1], e: [e0, e1] }
+}
+
+/// value of a flat scalar after conversion to the scalar kind `to` (K_BOOL, K_I32, K_U32, K_F16, K_F32, K_F64)
+fn convert_ref(v: Flat, to: u8) -> Expect {
+    // sources the statement talks about: bool, untyped int, int, uint, untyped float, half, float, double
+    if v.kind == K_I64 || v.kind == K_U64 {
+        return Expect::NotConst;
+    }
+    let is_float = v.kind >= K_FLIT;
+    let f: f64 = match v.kind {
+        K_F16 | K_F32 => v.as_f32() as f64,
+        K_FLIT | K_F64 => v.as_f64(),
+        _ => 0.0,
+    };
+    match to {
+        K_BOOL => b(match v.kind {
+            K_BOOL => v.as_bool(),
+            K_INTLIT => v.as_lit() != 0,
+            K_I32 => v.as_i32() != 0,
+            K_U32 => v.as_u32() != 0,
+            _ => f != 0.0,
+        }),
+        K_I32 => match v.kind {
+            K_BOOL => Expect::Is(Flat::i(v.as_bool() as i32)),
+            // integer conversions keep the low 32 bits
+            K_INTLIT => Expect::Is(Flat::i(v.bits as u32 as i32)),
+            K_I32 => Expect::Is(v),
+            K_U32 => Expect::Is(Flat::i(v.as_u32() as i32)),
+            // float to int truncates toward zero; outside the target range any value is allowed, but no abort
+            _ => {
+                if f > -2147483649.0 && f < 2147483648.0 {
+                    Expect::Is(Flat::i(if v.kind == K_F16 || v.kind == K_F32 { v.as_f32() as i32 } else { f as i32 }))
+                } else {
+                    Expect::Unspecified
+                }
+            }
+        },
+        K_U32 => match v.kind {
+            K_BOOL => Expect::Is(Flat::u(v.as_bool() as u32)),
+            K_INTLIT => Expect::Is(Flat::u(v.bits as u32)),
+            K_I32 => Expect::Is(Flat::u(v.as_i32() as u32)),
+            K_U32 => Expect::Is(v),
+            _ => {
+                if f > -1.0 && f < 4294967296.0 {
+                    Expect::Is(Flat::u(if v.kind == K_F16 || v.kind == K_F32 { v.as_f32() as u32 } else { f as u32 }))
+                } else {
+                    Expect::Unspecified
+                }
+            }
+        },
+        K_F32 | K_F16 => {
+            let r: f32 = match v.kind {
+                K_BOOL => if v.as_bool() { 1.0 } else { 0.0 },
+                K_INTLIT => v.as_lit() as f32,
+                K_I32 => v.as_i32() as f32,
+                K_U32 => v.as_u32() as f32,
+                K_F16 | K_F32 => v.as_f32(),
+                _ => f as f32,
+            };
+            let _ = is_float;
+            Expect::Is(Flat { kind: to, bits: r.to_bits() as u128 })
+        }
+        _ => {
+            let r: f64 = match v.kind {
+                K_BOOL => if v.as_bool() { 1.0 } else { 0.0 },
+                K_INTLIT => v.as_lit() as f64,
+                K_I32 => v.as_i32() as f64,
+                K_U32 => v.as_u32() as f64,
+                _ => f,
+            };
+            Expect::Is(Flat { kind: K_F64, bits: r.to_bits() as u128 })
+        }
+    }
+}
+
+fn cast_harness(target: usize, src_kinds: &[u8]) {
+    let w = cast_world();
+    let k: usize = kani::any();
+    kani::assume(k < src_kinds.len());
+    let (cv, fv) = any_scalar(src_kinds[k]);
+    // the source may itself be an enum constant (of either enum); conversion looks at the underlying value
+    let src_enum: u8 = kani::any();
+    kani::assume(src_enum < 3);
+    let value = match src_enum {
+        0 => cv,
+        1 => ir::Constant::Enum(w.e[0], Box::new(cv)),
+        _ => ir::Constant::Enum(w.e[1], Box::new(cv)),
+    };
+    let r = leak(evaluate_cast(w.ty[target], value, w.m));
+    let scalar_kind = [K_BOOL, K_I32, K_U32, K_F16, K_F32, K_F64, K_I32, K_U32][target];
+    let e = convert_ref(fv, scalar_kind);
+    // a cast to an enum type yields that enum around the converted underlying value
+    let wrap = if target == 6 { Some(w.e[0]) } else if target == 7 { Some(w.e[1]) } else { None };
+    check(r, e, wrap, false);
+    kani::cover!(true);
+}
+
+macro_rules! cast {
+    ($name:ident, $target:expr) => {
+        #[kani::proof]
+        #[kani::unwind(12)]
+        fn $name() {
+            cast_harness($target, &ALL);
+        }
+    };
+}
+cast!(c13_cast_to_bool, 0);
+cast!(c13_cast_to_int, 1);
+cast!(c13_cast_to_uint, 2);
+cast!(c13_cast_to_half, 3);
+cast!(c13_cast_to_float, 4);
+cast!(c13_cast_to_double, 5);
+cast!(c13_cast_to_enum_int, 6);
+cast!(c13_cast_to_enum_uint, 7);
+
+// ================================ evaluate_constexpr glue ==========================================
+// A cast node evaluates its operand and converts the result; nested casts compose.  BOUNDED: the two concrete
+// shapes Cast(T, Literal) and Cast(T, Cast(U, Literal)) with symbolic T, U and a symbolic literal.
+#[kani::proof]
+#[kani::unwind(12)]
+fn c13_constexpr_cast_nodes_compose_bounded() {
+    let w = cast_world();
+    let t: usize = kani::any();
+    let u: usize = kani::any();
+    kani::assume(t < 3 && u < 3); // bool / int / uint targets keep the float machinery out of this harness
+    let k: u8 = kani::any();
+    kani::assume(k == K_INTLIT || k == K_I32 || k == K_U32 || k == K_BOOL || k == K_FLIT);
+    let (cv, fv) = any_scalar(k);
+    let kinds = [K_BOOL, K_I32, K_U32];
+    let inner = ir::Expression::Cast(w.ty[u], Box::new(ir::Expression::Literal(cv)));
+    let outer = leak(ir::Expression::Cast(w.ty[t], Box::new(inner)));
+    let r = leak(evaluate_constexpr(outer, w.m));
+    // reference: convert to U, then convert that to T
+    let e = match convert_ref(fv, kinds[u]) {
+        Expect::Is(mid) => convert_ref(mid, kinds[t]),
+        Expect::NotConst => Expect::NotConst,
+        _ => Expect::Unspecified,
+    };
+    check(r, e, None, false);
+    kani::cover!(true);
+}
